@@ -193,6 +193,7 @@ pub struct WStats {
     pub unwind_drops: u32,
     pub huge_slices: u32,
     pub short_write_results: u32,
+    pub recovered_after_flush_report: u32,
 }
 
 #[derive(Clone, Copy, Debug)]
@@ -276,6 +277,9 @@ pub fn run_whistory(h: &WHistory, which: WOracles, prop: &str) -> Result<WStats,
     let mut calls_at_failure = 0u64;
     let mut ever_failed = false;
     let mut panicked = false;
+    // (sink length, stream length) when the last failure was reported by `flush()`, provided no
+    // failure happened since: from there on the sink must receive exactly what is written
+    let mut clean_since: Option<(usize, usize)> = None;
 
     macro_rules! bad {
         ($what:expr, $($arg:tt)*) => {
@@ -488,6 +492,7 @@ pub fn run_whistory(h: &WHistory, which: WOracles, prop: &str) -> Result<WStats,
                 ever_failed = true;
                 pending_failure = true;
                 calls_at_failure = l.calls;
+                clean_since = None;
             }
             if pending_before && l.calls != calls_before {
                 bad!(
@@ -530,6 +535,11 @@ pub fn run_whistory(h: &WHistory, which: WOracles, prop: &str) -> Result<WStats,
                         }
                         st.reports += 1;
                         pending_failure = false;
+                        if matches!(op, WOp::Flush) {
+                            // flush() empties the buffer whatever happens: "any data written after
+                            // an IO error occured, before it is eventually reported, will be discarded"
+                            clean_since = Some((l.received.len(), w_stream.len()));
+                        }
                         drop(l);
                         log.borrow_mut().pending = false;
                         continue;
@@ -614,7 +624,13 @@ pub fn run_whistory(h: &WHistory, which: WOracles, prop: &str) -> Result<WStats,
             if l.failures > failures_before {
                 st.sink_failures += l.failures - failures_before;
                 ever_failed = true;
+                clean_since = None;
             }
+        }
+    }
+    if let Some((_, p)) = clean_since {
+        if w_stream.len() > p {
+            st.recovered_after_flush_report += 1;
         }
     }
     if which.stream && !panicked {
@@ -635,6 +651,15 @@ pub fn run_whistory(h: &WHistory, which: WOracles, prop: &str) -> Result<WStats,
                     at
                 );
             }
+        } else if let Some((r, p)) = clean_since.filter(|(r, p)| l.received.len() >= *r && w_stream.len() >= *p && l.received[*r..] != w_stream[*p..]) {
+            bad!(
+                "stale-data-after-reported-error",
+                "a failure was reported by flush() when the sink held {} bytes and {} bytes had been written; the {} bytes written afterwards arrived as {} bytes (data written before the report was not discarded, or later data was lost)",
+                r,
+                p,
+                w_stream.len() - p,
+                l.received.len() - r
+            );
         } else if let Some(i) = subsequence_mismatch(&l.received, &w_stream) {
             bad!(
                 "not-a-selection",
@@ -658,6 +683,7 @@ pub fn classify(h: &WHistory, st: &WStats, obs: &mut Obs) {
     obs.class_if(st.sink_failures > 1, "sink-failed-twice");
     obs.class_if(st.writes_between_failure_and_report > 0, "writes-between-failure-and-report");
     obs.class_if(st.reports > 0, "error-reported");
+    obs.class_if(st.recovered_after_flush_report > 0, "writes-after-error-reported-by-flush");
     obs.class_if(st.digits_near_end > 0, "digits-near-buffer-end");
     obs.class_if(st.ptr_used > 0, "buf-write-ptr-used");
     obs.class_if(st.sink_panics > 0, "sink-panicked");
